@@ -164,7 +164,66 @@ func checkC13(w *World, r *Report) {
 			}
 			k3 := fmt.Sprintf("clear:%s[...]@%s#%d", tbl.Name(), ssaFuncKey(fn), ord-1)
 			if x == nil {
-				r.Undecided("R13.3", k3, w.Pos(stt.Pos()), "cleared slot is not indexed by a session's identifier")
+				// indexed by the slot number itself (`for id := range s.connections`): the clearing must hang on a
+				// condition about the occupant of THIS table at THIS index (its time-out, its identity), not only on the
+				// other table's entry
+				var own, other *types.Var
+				var sliceOf func(v ssa.Value, depth int, seen map[ssa.Value]bool, visit func(ssa.Value))
+				sliceOf = func(v ssa.Value, depth int, seen map[ssa.Value]bool, visit func(ssa.Value)) {
+					if v == nil || depth > 10 || seen[v] {
+						return
+					}
+					seen[v] = true
+					visit(v)
+					if in2, ok := v.(ssa.Instruction); ok {
+						for _, op := range in2.Operands(nil) {
+							if *op != nil {
+								sliceOf(*op, depth+1, seen, visit)
+							}
+						}
+					}
+				}
+				for _, b := range fn.Blocks {
+					ifi, ok := b.Instrs[len(b.Instrs)-1].(*ssa.If)
+					if !ok {
+						continue
+					}
+					// only the TRUE edge counts: "cleared because its occupant satisfies the predicate"; the false edge of
+					// `live != nil && stale(live)` says nothing in favour of clearing the live slot
+					for si := 0; si < 1; si++ {
+						if !edgeDominates(b, si, stt.Block()) {
+							continue
+						}
+						if _, _, isNilTest := nilTest(ifi.Cond); isNilTest {
+							continue // `entry != nil` says nothing about why the slot may be cleared
+						}
+						sliceOf(ifi.Cond, 0, map[ssa.Value]bool{}, func(v ssa.Value) {
+							u, ok := v.(*ssa.UnOp)
+							if !ok {
+								return
+							}
+							ia2, ok := u.X.(*ssa.IndexAddr)
+							if !ok {
+								return
+							}
+							if t := isTable(ia2.X); t != nil && ia2.Index == ia.Index {
+								if t == tbl {
+									own = t
+								} else {
+									other = t
+								}
+							}
+						})
+					}
+				}
+				switch {
+				case own != nil:
+					r.Hold("R13.3", k3, w.Pos(stt.Pos()), "the slot is cleared under a condition on its own occupant (same table, same index)")
+				case other != nil:
+					r.Violate("R13.3", k3, w.Pos(stt.Pos()), fmt.Sprintf("a slot of %s is cleared under a condition on the entry of %s at the same index only: when a retired session's retention expires, the LIVE session that re-used its identifier is deleted", tbl.Name(), other.Name()))
+				default:
+					r.Undecided("R13.3", k3, w.Pos(stt.Pos()), "cleared slot is not indexed by a session's identifier, and no condition on its occupant governs the clearing")
+				}
 				return
 			}
 			// X loaded from a table element?
